@@ -250,6 +250,19 @@ func (c *Variant) AsObject() any {
 //	Parameters:
 //		- value a value to be set
 func (c *Variant) SetAsObject(value any) {
+	// A variant source is read before this variant is overwritten (the source may be this very variant)
+	if source, ok := value.(*Variant); ok && source != nil {
+		typ, val := source.typ, source.value
+		if array, ok := val.([]*Variant); ok && typ == Array {
+			copied := make([]*Variant, len(array))
+			copy(copied, array)
+			val = copied
+		}
+		c.typ = typ
+		c.value = val
+		return
+	}
+
 	c.value = value
 
 	if value == nil {
